@@ -128,8 +128,9 @@ Print Assumptions C19_nonvacuous.
    v_isdef, v_empty, v_iscomment, v_defname, v_comment, v_inline of `view_gen`.  `_split_at_comment` is the character loop with the
    quote state: the source's while loop equals split_run split_step_gen (hypothesis: the line is no longer than the loop bound
    doc_while_fuel = 4096 of the dump).  Strings are byte strings; strip / isidentifier are their ASCII readings.
-   NOT bridged: `_get_docstring_starting_at_line` and `_get_comment_ending_at_line` beyond one round of its walk (both are dumped in
-   Gen/FactsDocSrc.v; gcel_shape pins the text of the second), and the per-class loop of `_get_attribute_docstring`. *)
+   The two line loops are bridged further down (Proofs/MiniPyDocScan.v): `_get_docstring_starting_at_line` = doc_open and
+   `_get_comment_ending_at_line` = comment_above, by induction over the lines; the enumerate / filter loop of
+   `_get_attribute_docstring` itself (inspect.getsource, dp_parse, str.replace, splitlines) is NOT dumped. *)
 From SPV Require Import Model.MiniPy Gen.FactsDocSrc Proofs.MiniPyDoc.
 
 Theorem C19_source_contains_field_definition_is_model : forall line,
@@ -203,3 +204,46 @@ Example C19_source_nonvacuous :
   /\ MiniPy.run [("line", VS "  x : int"); ("field_name", VS "x")] line_contains_definition_for_src = Ok (VB true).
 Proof. vm_compute. repeat split; reflexivity. Qed.
 Print Assumptions C19_source_nonvacuous.
+
+(* ---------- the two line loops and the per-class scan ---------- *)
+From SPV Require Import Proofs.MiniPyDocScan.
+
+(* the downward scan with the triple-quote token state = doc_open on the lines from n on (bound: at most doc_while_fuel lines) *)
+Theorem C19_source_docstring_below_is_model : forall lines n,
+  List.length lines <= doc_while_fuel ->
+  MiniPy.run [("code_lines", VL (map VS lines)); ("line", VN n)] get_docstring_starting_at_line_src
+  = Ok (VS (doc_open (map view_gen (skipn n lines)))).
+Proof. exact get_docstring_starting_at_line_is_model. Qed.
+Print Assumptions C19_source_docstring_below_is_model.
+
+(* the upward walk and the join of the collected comments = comment_above on the lines m, m-1, ..., 0 *)
+Theorem C19_source_comment_above_is_model : forall lines m,
+  m < List.length lines -> m <= doc_while_fuel ->
+  MiniPy.run [("code_lines", VL (map VS lines)); ("line", VN m)] get_comment_ending_at_line_src
+  = Ok (VS (comment_above FIX_WALK walk_stops_at_quote_lines_gen (map view_gen (rev (firstn (S m) lines))))).
+Proof. exact get_comment_ending_at_line_is_model. Qed.
+Print Assumptions C19_source_comment_above_is_model.
+
+(* the per-class part: when line S m is the first one that defines f (the test bridged by C19_source_contains_field_definition /
+   C19_source_line_contains_definition_for), the three dumped helpers called at S m - 1, S m, S m + 1 return the triple of
+   scan_lines_gen, i.e. what C19_scan_render is about *)
+Theorem C19_source_scan_is_model : forall lines f m l,
+  nth_error lines (S m) = Some l -> defines f (view_gen l) = true ->
+  Forall (fun x => defines f (view_gen x) = false) (firstn (S m) lines) ->
+  List.length lines <= doc_while_fuel -> Forall (fun l => String.length l <= doc_while_fuel) lines ->
+  exists above inline below,
+    MiniPy.run [("code_lines", VL (map VS lines)); ("line", VN m)] get_comment_ending_at_line_src = Ok (VS above)
+    /\ MiniPy.run [("code_lines", VL (map VS lines)); ("line", VN (S m))] get_inline_comment_at_line_src = Ok (VS inline)
+    /\ MiniPy.run [("code_lines", VL (map VS lines)); ("line", VN (S (S m)))] get_docstring_starting_at_line_src = Ok (VS below)
+    /\ scan_lines_gen lines f = Some (above, inline, below).
+Proof. exact scan_parts_is_model. Qed.
+Print Assumptions C19_source_scan_is_model.
+
+Definition NVD_LINES : list string :=
+  ["class A:"; "    x: int = 1"; ""; "    # the colour"; "    # of it"; "    color: str = ""#f""  # shade"; "    """"""the doc"; "    more"""""""; "    y: int = 2"].
+Example C19_source_scan_nonvacuous :
+  MiniPy.run [("code_lines", VL (map VS NVD_LINES)); ("line", VN 4)] get_comment_ending_at_line_src = Ok (VS ("the colour" ++ String (Ascii.ascii_of_nat 10) "of it"))
+  /\ MiniPy.run [("code_lines", VL (map VS NVD_LINES)); ("line", VN 6)] get_docstring_starting_at_line_src = Ok (VS ("the doc" ++ String (Ascii.ascii_of_nat 10) "more"))
+  /\ scan_lines_gen NVD_LINES "color" = Some ("the colour" ++ String (Ascii.ascii_of_nat 10) "of it", "shade", "the doc" ++ String (Ascii.ascii_of_nat 10) "more").
+Proof. vm_compute. repeat split; reflexivity. Qed.
+Print Assumptions C19_source_scan_nonvacuous.
